@@ -3,6 +3,7 @@ package props
 import (
 	"fmt"
 	"go/ast"
+	"go/constant"
 	"go/token"
 	"go/types"
 	"strings"
@@ -469,4 +470,96 @@ func c06LineStart(c *core.Check) {
 	if n == 0 {
 		r.Anchor("updateLine: tk.lineIndex = …")
 	}
+}
+
+// c06ImportantState: `important` counts only directly after `!`.  In the state machine of parseDeclaration the
+// transition to the important state is taken only where the state was compared equal to the "bang" state.
+func c06ImportantState(c *core.Check) {
+	p := c.Prog
+	r := c.Rule("R12", "!important is `!` then `important`: in parseDeclaration the state becomes \"important\" only on the path where the current state was compared equal to the state entered by `!` — an `important` identifier anywhere else (a second one after !important) is part of the value", 1)
+	fn := p.Fn("css/parser", "parseDeclaration")
+	if fn == nil {
+		r.Anchor("css/parser.parseDeclaration")
+		return
+	}
+	sBang := p.Obj("css/parser", "sBang")
+	sImp := p.Obj("css/parser", "sImportant")
+	var bangV, impV int64 = -1, -1
+	// the state constants are local to the function in this code base: find them through the comparison with "!" path
+	if sBang != nil && sImp != nil {
+		if k, ok := sBang.(*types.Const); ok {
+			bangV, _ = constantInt(k)
+		}
+		if k, ok := sImp.(*types.Const); ok {
+			impV, _ = constantInt(k)
+		}
+	}
+	if bangV < 0 || impV < 0 {
+		// local constants: read them from the function's declaration
+		if decl := p.Decl(fn); decl != nil {
+			info := p.InfoOf(fn)
+			ast.Inspect(decl, func(n ast.Node) bool {
+				if id, ok := n.(*ast.Ident); ok && info != nil {
+					if k, ok := info.Defs[id].(*types.Const); ok {
+						switch id.Name {
+						case "sBang":
+							bangV, _ = constantInt(k)
+						case "sImportant":
+							impV, _ = constantInt(k)
+						}
+					}
+				}
+				return true
+			})
+		}
+	}
+	if bangV < 0 || impV < 0 {
+		r.Anchor("parseDeclaration: the constants sBang and sImportant")
+		return
+	}
+	// the state variable: a phi (or cell) assigned the constants; transitions to impV are the phi edges carrying it
+	var atoms []ssa.Value
+	for _, a := range core.CondAtoms(fn) {
+		bo, ok := a.(*ssa.BinOp)
+		if !ok || bo.Op != token.EQL {
+			continue
+		}
+		if k, isK := core.ConstInt(bo.Y); isK && k == bangV {
+			atoms = append(atoms, a)
+		}
+	}
+	n := 0
+	core.Instrs(fn, func(in ssa.Instruction) {
+		phi, ok := in.(*ssa.Phi)
+		if !ok {
+			return
+		}
+		for i, e := range phi.Edges {
+			k, isK := core.ConstInt(e)
+			if !isK || k != impV || phi.Comment != "state" {
+				continue
+			}
+			n++
+			pred := phi.Block().Preds[i]
+			ok2 := false
+			if len(atoms) > 0 {
+				ok2, _ = core.GuardedBy(fn, pred, atoms, func(m map[ssa.Value]bool) bool {
+					for _, v := range m {
+						if v {
+							return true
+						}
+					}
+					return false
+				})
+			}
+			r.Cond(ok2, "css/parser.parseDeclaration | state = important", p.Pos(phi.Pos()), "only where state == sBang held", "the important state is entered without the state having been found equal to the one `!` sets: `font-family: serif !important important` becomes important with the second identifier swallowed")
+		}
+	})
+	if n == 0 {
+		r.Anchor("parseDeclaration: state = sImportant")
+	}
+}
+
+func constantInt(k *types.Const) (int64, bool) {
+	return constant.Int64Val(constant.ToInt(k.Val()))
 }
